@@ -372,19 +372,21 @@ structure InvS (s : Store) : Prop where
   db : Inv s.db
   txn : ∀ d, s.txn = some d → Inv d
   saves : ∀ d ∈ s.saves, Inv d
+  /-- savepoints exist only inside a BEGIN transaction (the C uses SAVE only when sqlite3_get_autocommit() is 0) -/
+  txwf : s.txn = none → s.saves = []
 
-theorem InvS.empty : InvS {} := ⟨Inv.empty, (fun _ h => nomatch h), (fun _ h => nomatch h)⟩
+theorem InvS.empty : InvS {} := ⟨Inv.empty, (fun _ h => nomatch h), (fun _ h => nomatch h), (fun _ => rfl)⟩
 
-theorem InvS.setDb {s : Store} (h : InvS s) {d : Db} (hd : Inv d) : InvS { s with db := d } := ⟨hd, h.txn, h.saves⟩
+theorem InvS.setDb {s : Store} (h : InvS s) {d : Db} (hd : Inv d) : InvS { s with db := d } := ⟨hd, h.txn, h.saves, h.txwf⟩
 
 theorem InvS.begin {s s1 : Store} (h : InvS s) (hb : s.begin = some s1) : InvS s1 := by
   obtain ⟨_, rfl⟩ := begin_autocommit s s1 hb
-  exact ⟨h.db, fun d hd => by cases hd; exact h.db, h.saves⟩
+  exact ⟨h.db, fun d hd => by cases hd; exact h.db, h.saves, fun ht => nomatch ht⟩
 
 theorem InvS.commitD {s : Store} (h : InvS s) (s0 : Store) (h0 : InvS s0) : InvS (s.commit.getD s0) := by
   unfold Store.commit; split
   · exact h0
-  · exact ⟨h.db, (fun _ hd => nomatch hd), (fun _ hd => nomatch hd)⟩
+  · exact ⟨h.db, (fun _ hd => nomatch hd), (fun _ hd => nomatch hd), (fun _ => rfl)⟩
 
 theorem InvS.outermost {s : Store} (h : InvS s) : Inv s.outermost := by
   unfold Store.outermost
@@ -397,27 +399,35 @@ theorem InvS.outermost {s : Store} (h : InvS s) : Inv s.outermost := by
 theorem InvS.rollbackD {s : Store} (h : InvS s) (s0 : Store) (h0 : InvS s0) : InvS (s.rollback.getD s0) := by
   unfold Store.rollback; split
   · exact h0
-  · exact ⟨h.outermost, (fun _ hd => nomatch hd), (fun _ hd => nomatch hd)⟩
+  · exact ⟨h.outermost, (fun _ hd => nomatch hd), (fun _ hd => nomatch hd), (fun _ => rfl)⟩
 
-theorem InvS.save {s : Store} (h : InvS s) : InvS s.save :=
-  ⟨h.db, h.txn, fun d hd => by rcases List.mem_cons.mp hd with rfl | hd; exact h.db; exact h.saves d hd⟩
+theorem InvS.txn_of_not_autocommit {s : Store} (h : InvS s) (ha : s.autocommit = false) : ∃ d, s.txn = some d := by
+  cases ht : s.txn with
+  | some d => exact ⟨d, rfl⟩
+  | none => simp [Store.autocommit, ht, h.txwf ht] at ha
+
+theorem InvS.save {s : Store} (h : InvS s) (ha : s.autocommit = false) : InvS s.save := by
+  obtain ⟨d0, hd0⟩ := h.txn_of_not_autocommit ha
+  exact ⟨h.db, h.txn, fun d hd => by rcases List.mem_cons.mp hd with rfl | hd; exact h.db; exact h.saves d hd,
+    fun ht => by simp [Store.save, hd0] at ht⟩
 
 theorem InvS.releaseD {s : Store} (h : InvS s) : InvS (s.release.getD s) := by
   unfold Store.release; split
   · exact h
   · rename_i d r hs
-    exact ⟨h.db, h.txn, fun d' hd' => h.saves d' (by rw [hs]; exact List.mem_cons_of_mem _ hd')⟩
+    exact ⟨h.db, h.txn, fun d' hd' => h.saves d' (by rw [hs]; exact List.mem_cons_of_mem _ hd'),
+      fun ht => by have := h.txwf ht; rw [hs] at this; cases this⟩
 
 theorem InvS.rollbackToD {s : Store} (h : InvS s) : InvS (s.rollbackTo.getD s) := by
   unfold Store.rollbackTo; split
   · exact h
   · rename_i d r hs
-    exact ⟨h.saves d (by rw [hs]; exact List.mem_cons_self), h.txn, h.saves⟩
+    exact ⟨h.saves d (by rw [hs]; exact List.mem_cons_self), h.txn, h.saves, h.txwf⟩
 
 theorem InvS.beginNest {s : Store} (h : InvS s) : InvS s.beginNest.1 := by
   unfold Store.beginNest; split
-  · exact ⟨h.db, fun d hd => by cases hd; exact h.db, h.saves⟩
-  · exact h.save
+  · exact ⟨h.db, fun d hd => by cases hd; exact h.db, h.saves, fun ht => nomatch ht⟩
+  · rename_i ha; exact h.save (by simpa using ha)
 
 theorem InvS.commitNest {s : Store} (h : InvS s) (top : Bool) : InvS (s.commitNest top) := by
   unfold Store.commitNest; split
@@ -616,22 +626,26 @@ theorem updateValues_inv : ∀ (p : List (Str × V)) (d d' : Db) (it : Iter), In
 theorem updatePacket_invS {s : Store} (h : InvS s) (it : Iter) (p : List (Str × V)) : InvS (updatePacket s it p).1 := by
   unfold updatePacket
   split; · exact h
+  rename_i ha
+  have hsv := h.save (by simpa using ha)
   split; · exact h
   simp only []
   split
   · rename_i d2 hu
-    exact (h.save.setDb (updateValues_inv p _ d2 it h.save.db hu)).releaseD
-  · exact h.save.rollbackToD
+    exact (hsv.setDb (updateValues_inv p _ d2 it hsv.db hu)).releaseD
+  · exact hsv.rollbackToD
 
 theorem removePacket_invS {s : Store} (h : InvS s) (it : Iter) : InvS (removePacket s it).1 := by
   unfold removePacket
   split; · exact h
+  rename_i ha
+  have hsv := h.save (by simpa using ha)
   split; · exact h
   simp only []
-  refine (h.save.setDb ?_).releaseD
+  refine (hsv.setDb ?_).releaseD
   split
-  · exact (h.save.db.removePacket _ _ _).resetRowNum _ _
-  · exact h.save.db.removePacket _ _ _
+  · exact (hsv.db.removePacket _ _ _).resetRowNum _ _
+  · exact hsv.db.removePacket _ _ _
 
 theorem closeIter_invS {s : Store} (h : InvS s) : InvS (closeIter s).1 := by
   unfold closeIter
